@@ -40,9 +40,17 @@ STDLIB_RAISES = {
 
 
 class Esc:
-    __slots__ = ('exc', 'kind', 'file', 'func', 'construct', 'line', 'chain')
+    """one way an exception escapes.  `chain` is the (shortest known) call
+    chain from the function the summary belongs to down to the raising
+    function; `alts` are other chains for the same origin that leave the
+    summarised function through a different callee - kept so that every
+    call site that lets the exception through is known, not only the first
+    one met"""
+    __slots__ = ('exc', 'kind', 'file', 'func', 'construct', 'line', 'chain',
+                 'alts')
 
-    def __init__(self, exc, kind, file, func, construct, line, chain=()):
+    def __init__(self, exc, kind, file, func, construct, line, chain=(),
+                 alts=()):
         self.exc = exc
         self.kind = kind
         self.file = file
@@ -50,27 +58,55 @@ class Esc:
         self.construct = construct
         self.line = line
         self.chain = chain
+        self.alts = alts
 
     @property
     def key(self):
         return (self.exc, self.kind, self.func, self.construct)
 
-    def via(self, caller):
-        chain = (caller,) + self.chain
+    @staticmethod
+    def _ext(caller, chain):
+        chain = (caller,) + chain
         if len(chain) > 9:
             chain = chain[:5] + ('...',) + chain[-3:]
+        return chain
+
+    def via(self, caller):
         return Esc(self.exc, self.kind, self.file, self.func, self.construct,
-                   self.line, chain)
+                   self.line, self._ext(caller, self.chain),
+                   tuple(self._ext(caller, a) for a in self.alts))
+
+    def all_chains(self):
+        return (self.chain,) + tuple(self.alts)
 
     def __repr__(self):
         return '<Esc %s %s %s:%s %s>' % (self.exc, self.kind, self.func,
                                          self.line, self.construct)
 
 
+MAX_ALTS = 12
+
+
+def _join(o, e):
+    """the summary entry for an origin reached both as o and as e: the
+    shorter chain leads, the chains that leave through another callee
+    (different second element) are remembered"""
+    a, b = (e, o) if len(e.chain) < len(o.chain) else (o, e)
+    seen = {a.chain[:2]}
+    alts = []
+    for c in a.alts + (b.chain,) + b.alts:
+        if c[:2] not in seen and len(alts) < MAX_ALTS:
+            seen.add(c[:2])
+            alts.append(c)
+    if tuple(alts) == a.alts:
+        return a
+    return Esc(a.exc, a.kind, a.file, a.func, a.construct, a.line, a.chain,
+               tuple(alts))
+
+
 def _put(out, e):
     o = out.get(e.key)
-    if o is None or len(e.chain) < len(o.chain):
-        out[e.key] = e
+    out[e.key] = e if o is None else _join(o, e)
 
 
 class Hierarchy:
@@ -197,9 +233,11 @@ class EscapeAnalysis:
                     continue
                 new = self.esc_block(f, f.node.body, caught=None)
                 old = self.summ[f.fq]
-                if set(new) != set(old):
+                if set(new) != set(old) or any(
+                        {c[:2] for c in new[k].all_chains()} !=
+                        {c[:2] for c in old[k].all_chains()} for k in new):
                     changed = True
-                    self.summ[f.fq] = new
+                self.summ[f.fq] = new
             if not changed:
                 break
         return self.summ
@@ -230,8 +268,7 @@ class EscapeAnalysis:
     def _merge(dst, src):
         for k, v in src.items():
             o = dst.get(k)
-            if o is None or len(v.chain) < len(o.chain):
-                dst[k] = v
+            dst[k] = v if o is None else _join(o, v)
 
     def esc_stmt(self, func, st, caught):
         if isinstance(st, (ast.FunctionDef, ast.AsyncFunctionDef,
